@@ -169,7 +169,7 @@ pub fn run(ctx: &Ctx) -> (Stats, Report) {
     // 1a: every short string as a picture, against fixed inputs
     let alpha: Vec<String> = super::c19::ALPHABET.iter().map(|b| (*b as char).to_string()).collect();
     let alpha_ref: Vec<&str> = alpha.iter().map(|s| s.as_str()).collect();
-    let fixed_inputs = ["", "1", "2021-12-31 23:59:59.123456", "+12 PM", "-5 10:20:30.5", "Monday January 01", "0"];
+    let fixed_inputs = ["", "1", "2021-12-31 23:59:59.123456", "+12 PM", "-5 10:20:30.5", "Monday January 01", "0", "+1", "-1"];
     let plen = if ctx.thorough { 4 } else { 3 };
     for len in 0..=plen {
         let total = (alpha_ref.len() as u64).pow(len as u32);
@@ -246,6 +246,62 @@ pub fn run(ctx: &Ctx) -> (Stats, Report) {
         st.exhaustive_sections.push(format!("every string of length 0..={slen} over the picture alphabet before and after 28..=38 one-character tokens (two fillers)"));
     }
     st.section("short_pictures_at_the_token_limit", &mut mark);
+
+    // 1a'': every documented token spelling with every 0..2-character string before or after it
+    // (prefixes / suffixes that a new modifier, alias or element would be spelled with), against
+    // signed, short and empty inputs
+    {
+        let mut toks: Vec<String> = crate::gen::menu().iter().map(|t| crate::model::text::spell(&[t.clone()])).collect();
+        toks.extend(["HH".to_string(), "T".to_string(), "YYYY-MM-DD".to_string(), "HH24:MI:SS".to_string()]);
+        toks.sort();
+        toks.dedup();
+        let mut affixes: Vec<String> = vec![];
+        for len in 0..=2 {
+            for idx in 0..(alpha_ref.len() as u64).pow(len as u32) {
+                affixes.push(nth_over(&alpha_ref, idx, len));
+            }
+        }
+        // ... plus every printable ASCII character and every pair of capital letters (spellings
+        // outside today's picture alphabet)
+        for c in 0x20u8..0x7f {
+            affixes.push((c as char).to_string());
+        }
+        for a in b'A'..=b'Z' {
+            for b in b'A'..=b'Z' {
+                affixes.push(format!("{}{}", a as char, b as char));
+            }
+        }
+        affixes.sort();
+        affixes.dedup();
+        let inputs = ["+1", "-12", "1", "", "2021-03-+7"];
+        let total = (toks.len() * affixes.len() * 2) as u64;
+        let (toks, affixes) = (&toks, &affixes);
+        let s = par_sweep(total, 64, |range, st| {
+            for idx in range {
+                let t = &toks[idx as usize / (affixes.len() * 2)];
+                let a = &affixes[(idx as usize / 2) % affixes.len()];
+                let pic = if idx % 2 == 0 { format!("{a}{t}") } else { format!("{t}{a}") };
+                let compiled = tokenize(&pic).is_some();
+                for text in inputs {
+                    match check_text(&pic, text) {
+                        Ok(n) => {
+                            st.evaluations += n as u64;
+                            if compiled && !text.is_empty() {
+                                st.nontrivial_enum += 1;
+                            }
+                        }
+                        Err(m) => {
+                            st.fail(idx, Case::new(P, "text", vec![], vec![pic.clone(), text.to_string()]), m);
+                            return;
+                        }
+                    }
+                }
+            }
+        });
+        st.merge(s);
+        st.exhaustive_sections.push("every documented token spelling with every string of length 0..=2 over the picture alphabet, every printable ASCII character and every pair of capital letters before or after it x 5 signed / short / empty inputs".into());
+    }
+    st.section("affixed_tokens", &mut mark);
 
     // 1b: every short string over the input alphabet as an input, against fixed pictures
     let ilen = if ctx.thorough { 4 } else { 3 };
@@ -632,7 +688,7 @@ pub fn run(ctx: &Ctx) -> (Stats, Report) {
     st.section("operation_table_extreme_operands", &mut mark);
 
     let rep = Report {
-        rule: format!("Oracle: catch_unwind - every call returns (a value or an Error). (1) every string up to length {plen} over the picture alphabet as a picture x fixed inputs, and every string up to length {ilen} over a {}-symbol input alphabet (digits, signs, punctuation, letters, tab, newline, NUL, multi-byte characters) as an input x {} fixed pictures, through Formatter::try_new, T::parse, Formatter::parse of all six types and format of 14 boundary values into a String sink (an inapplicable field must surface as Err from the sink, not a panic) and into a re-entrant sink that formats another library value on every chunk it receives; (1c) every string up to length 2 (3 in thorough) over the picture alphabet before and after 28..=38 one-character tokens; (2) proptest grammar pictures of 0..=40 tokens with blank runs up to 600 and random letter case x inputs obtained by formatting a pool value and applying 0..3 mutations (replace / insert / delete / duplicate a character, splice a digit run, a sign, a multi-byte character, control whitespace, truncate); (2b) blank / digit runs of length 2^k-1, 2^k, 2^k+1 (k = 8..20) and long texts / pictures (filler of every length 0..=1100, 6000 in thorough) with a 2-, 3- or 4-byte character across every byte offset, after a valid prefix with a wrong or right separator, and nine bracketing syntaxes (quotes, brackets, braces, escapes) around ASCII / multi-byte contents of every length 0..=40; (3) every row of the {}-row operation table x pool values x extreme scalars (i32::MIN, u32::MAX, NaN, infinities, subnormals, 1e300) and proptest-generated scalars. Run under the release profile and under a profile with overflow checks and debug assertions. Non-trivial = the picture compiles and the input is non-empty, or a row with an extreme scalar operand.", INPUT_ALPHABET.len(), FIXED_PICTURES.len(), ops.len()),
+        rule: format!("Oracle: catch_unwind - every call returns (a value or an Error). (1) every string up to length {plen} over the picture alphabet as a picture x fixed inputs, and every string up to length {ilen} over a {}-symbol input alphabet (digits, signs, punctuation, letters, tab, newline, NUL, multi-byte characters) as an input x {} fixed pictures, through Formatter::try_new, T::parse, Formatter::parse of all six types and format of 14 boundary values into a String sink (an inapplicable field must surface as Err from the sink, not a panic) and into a re-entrant sink that formats another library value on every chunk it receives; (1b') every documented token spelling with every string up to length 2 over the picture alphabet, every printable ASCII character and every pair of capital letters before or after it x signed / short / empty inputs; (1c) every string up to length 2 (3 in thorough) over the picture alphabet before and after 28..=38 one-character tokens; (2) proptest grammar pictures of 0..=40 tokens with blank runs up to 600 and random letter case x inputs obtained by formatting a pool value and applying 0..3 mutations (replace / insert / delete / duplicate a character, splice a digit run, a sign, a multi-byte character, control whitespace, truncate); (2b) blank / digit runs of length 2^k-1, 2^k, 2^k+1 (k = 8..20) and long texts / pictures (filler of every length 0..=1100, 6000 in thorough) with a 2-, 3- or 4-byte character across every byte offset, after a valid prefix with a wrong or right separator, and nine bracketing syntaxes (quotes, brackets, braces, escapes) around ASCII / multi-byte contents of every length 0..=40; (3) every row of the {}-row operation table x pool values x extreme scalars (i32::MIN, u32::MAX, NaN, infinities, subnormals, 1e300) and proptest-generated scalars. Run under the release profile and under a profile with overflow checks and debug assertions. Non-trivial = the picture compiles and the input is non-empty, or a row with an extreme scalar operand.", INPUT_ALPHABET.len(), FIXED_PICTURES.len(), ops.len()),
         assumptions: vec![
             "unsafe fns and the documented-to-panic WeekDay::from(usize) / Month::from(usize) are outside the quantifier".into(),
             "formatting is observed through write!(&mut String, ..); ToString::to_string() on a Display that reports an error panics inside std by std's contract and is never called".into(),
